@@ -1781,7 +1781,9 @@ func (s *Store) ExecuteTransaction(transaction *Transaction) error {
 	for k, v := range updateCountsPerDataset {
 		ds, ok := s.datasets.Load(k)
 		if !ok {
-			return errors.New("no dataset " + k)
+			// the dataset was deleted while the transaction was running. The transaction is committed,
+			// there is no counter to update for that dataset any more, the other datasets still need theirs
+			continue
 		}
 
 		err = ds.(*Dataset).updateDataset(v, nil)
